@@ -44,6 +44,10 @@ RULE = ("generated: per communicator size R in 1..8 a history = initial placemen
         "of the same kind through the same code on sub-communicators of another size built with MPI_Comm_split (world-rank parity, rank < n-1 versus "
         "the last rank, or node parity — only splits that keep ygm::layout's uniform ranks-per-node) before the world run (a third of them after it); "
         "every communicator's part is judged with the same oracle and model comparison; "
+        "tagged_bag: every rank inserts and AT ONCE (no barrier / size()) all_gathers its fresh tag (and the previous one), several times so that ranks own "
+        "their own fresh tags; special sizes: vector inserts, rebalance shipments, gathered local vectors and bag<std::string> items of exactly 254 / 255 / 256 "
+        "(thorough: 65535 / 65536) elements; environment dimension rotated over the cases: YGM_COMM_ISSEND_FREQ in {default, 0, 1, 8}, NUM_IRECVS in "
+        "{default, 1, 2, 8}, NUM_ISENDS_WAIT in {default, 0, 1, 4}, cyclic placement of ranks on nodes for a third of the multi-node cases; "
         "non-trivial = at least one item inserted")
 
 ROUTES = ["NONE", "NR", "NLNR"]
@@ -175,6 +179,17 @@ def gen_tbag_case(rng, R):
         cur[0] = n
         ops.append(f"T {n}")
 
+    def fresh_gather():
+        """every rank inserts and AT ONCE (no barrier / size() in between) all_gathers its fresh tag (and the previous fresh one)"""
+        b = st[cur[0]]
+        for _ in range(rng.randrange(1, R + 3)):      # serials advance, so sooner or later a rank owns its own fresh tag
+            for r in range(R):
+                b["live"].append((r << 40) + b["serial"][r])
+                b["serial"][r] += 1
+                nins[0] += 1
+            ops.append(f"J {rng.randrange(0, 1000)}")
+        ops.extend(["B", "D"])
+
     n0 = rng.randrange(1, 2 * R + 2)
     for _ in range(n0):
         ins()
@@ -185,6 +200,8 @@ def gen_tbag_case(rng, R):
     ops.extend(["B", "D"])
     select(0)
     ops.append("D")
+    if rng.random() < 0.7:
+        fresh_gather()
     work()
     for _ in range(rng.randrange(1, 3)):
         ops.append("S")
@@ -195,6 +212,8 @@ def gen_tbag_case(rng, R):
             for _ in range(rng.randrange(1, R + 3)):      # new inserts: their tags must avoid every live tag of the swapped-in contents
                 ins()
             ops.extend(["B", "D"])
+            if rng.random() < 0.4:
+                fresh_gather()
             work()
     for n in (0, 1):
         select(n)
@@ -215,6 +234,10 @@ def run_real(binary, case, sim_seed=None, policy=None):
     env = {"YGM_COMM_ROUTING": case["routing"]}
     if case["buffer_kb"] is not None:
         env["YGM_COMM_BUFFER_SIZE_KB"] = case["buffer_kb"]
+    for key, var in (("issend_freq", "YGM_COMM_ISSEND_FREQ"), ("num_irecvs", "YGM_COMM_NUM_IRECVS"), ("isends_wait", "YGM_COMM_NUM_ISENDS_WAIT"),
+                     ("placement_nodes", "SIMMPI_PLACEMENT")):
+        if case.get(key) is not None:
+            env[var] = case[key]
     args = [case["mode"], case["script"]]
     sub = case.get("sub")
     if sub:      # the same scenario code first (or afterwards) on a sub-communicator of another size, in the same process
@@ -224,6 +247,19 @@ def run_real(binary, case, sim_seed=None, policy=None):
         args.append(f"{case['mode']}|{case['script']}")
     return C.run_sim(binary, args, nodes=case["nodes"], ppn=case["ppn"], env=env,
                      sim_seed=sim_seed or case["sim_seed"], policy=policy or case["policy"], want_log=False, timeout=120)
+
+
+KNOBS = ("issend_freq", "num_irecvs", "isends_wait", "placement_nodes", "oracle_only")
+
+
+def env_knobs(case, k):
+    """environment dimension, rotated over the cases (deterministic in the case index k, recorded in the case):
+    YGM_COMM_ISSEND_FREQ / NUM_IRECVS / NUM_ISENDS_WAIT (None = library default 8 / 8 / 4) and cyclic placement of ranks on nodes"""
+    case["issend_freq"] = [None, 0, 1, 8][k % 4]
+    case["num_irecvs"] = [None, 1, 2, 8][(k // 2) % 4]
+    case["isends_wait"] = [None, 0, 1, 4][(k // 3) % 4]
+    # cyclic placement only where the block arithmetic of the sub-communicator splits is not needed
+    case["placement_nodes"] = "cyclic" if (case["nodes"] > 1 and case["ppn"] > 1 and not case.get("sub") and k % 3 == 0) else None
 
 
 class Sec:
@@ -285,13 +321,48 @@ def sections(case, sr):
     return res
 
 
+def gen_string(n, seed):
+    """the harness' string of length n for this seed (splitmix64) and its FNV-1a hash"""
+    st = seed & M64
+    h = 1469598103934665603
+    for _ in range(n):
+        st = (st + 0x9e3779b97f4a7c15) & M64
+        z = st
+        z = ((z ^ (z >> 30)) * 0xbf58476d1ce4e5b9) & M64
+        z = ((z ^ (z >> 27)) * 0x94d049bb133111eb) & M64
+        z ^= z >> 31
+        h = ((h ^ (33 + z % 90)) * 1099511628211) & M64
+    return h
+
+
+def evaluate_sbag(case, sr):
+    """bag<std::string>: oracle only — every rank's gather_to_vector() holds exactly the inserted strings (length and content hash)"""
+    cid = cid_of(case)
+    if sr.verdict != "ok":
+        return [{"what": f"real bag<string> run failed ({sr.verdict})", "signature": "sbag-run-failed " + sr.verdict.split(":")[0],
+                 "case": dict(cid, verdict=sr.verdict, stderr=sr.stderr[-300:])}]
+    R = case["ranks"]
+    want = sorted(f"{f[2]}:{gen_string(int(f[2]), int(f[3]))}" for f in (op.split() for op in case["script"].split(";")) if f[0] == "i" and int(f[1]) < R)
+    of = []
+    for r in range(R):
+        lines = [l.split()[1:] for l in sr.outs.get(r, []) if l.startswith("sgather")]
+        if not lines or sorted(lines[-1]) != want:
+            of.append({"what": f"rank {r}: gather_to_vector() of the bag<string> returned {len(lines[-1]) if lines else None} strings "
+                               f"{[x.split(':')[0] for x in (lines[-1] if lines else [])][:8]}, inserted lengths {[x.split(':')[0] for x in want][:8]}",
+                       "signature": "sbag-items-not-conserved", "case": dict(cid, rank=r)})
+            break
+    return of
+
+
 def judge(case, sr, model_ok=True, world_tb_model=None):
     """evaluate every communicator's part of the run: (oracle failures, correspondence failures, notes)"""
     of, cf, notes = [], [], []
     cid = cid_of(case)
     for label, unit, sec in sections(case, sr):
-        if unit["mode"] == "bag":
-            o, c, n = evaluate_bag(unit, sec, model_ok)
+        if unit["mode"] == "sbag":
+            o, c, n = evaluate_sbag(unit, sec), [], []
+        elif unit["mode"] == "bag":
+            o, c, n = evaluate_bag(unit, sec, model_ok and not unit.get("oracle_only"))
         else:
             mo = world_tb_model if label == "world" and world_tb_model is not None else (C.model("bag", [model_line_tbag(unit)])[0] if model_ok else None)
             o, c = evaluate_tbag(unit, sec, mo)
@@ -310,6 +381,9 @@ def cid_of(case):
     cid = {k: case[k] for k in ("mode", "ranks", "script", "nodes", "ppn", "routing", "buffer_kb", "sim_seed", "policy")}
     if case.get("sub"):
         cid["sub"] = case["sub"]
+    for key in KNOBS:
+        if case.get(key) is not None:
+            cid[key] = case[key]
     return cid
 
 
@@ -395,6 +469,9 @@ def analyse_bag(case, sr):
         elif c == "v":
             xs = [] if f[3] == "-" else [int(x) for x in f[3].split(",")]
             pending[cur] += xs; toks.append(f"v:{f[1]}:{f[2]}:{f[3]}")
+        elif c == "W":
+            xs = list(range(int(f[4]), int(f[4]) + int(f[3])))
+            pending[cur] += xs; toks.append(f"v:{f[1]}:{f[2]}:" + (",".join(map(str, xs)) or "-"))
         elif c == "T":
             cur = int(f[1]); toks.append(f"T:{cur}")
         elif c == "B":
@@ -525,6 +602,8 @@ def total_at_rebalance(case, n):
             pend[cur] += 1
         elif f[0] == "v":
             pend[cur] += 0 if f[3] == "-" else len(f[3].split(","))
+        elif f[0] == "W":
+            pend[cur] += int(f[3])
         elif f[0] == "B":
             cnt[0] += pend[0]; cnt[1] += pend[1]; pend = [0, 0]
         elif f[0] == "T":
@@ -554,17 +633,31 @@ def trap_signature(case, sr):
 
 
 def model_line_tbag(case):
+    R = case["ranks"]
     toks = []
+    serial = [[0] * R, [0] * R]      # predicted counters of the two bags (exchanged by swap)
+    mine = [[[] for _ in range(R)], [[] for _ in range(R)]]     # per harness slot: the fresh tags of the J steps, per rank
+    cur = 0
     for op in case["script"].split(";"):
         f = op.split()
-        if f[0] == "i": toks.append(f"i:{f[1]}:{f[2]}")
+        if f[0] == "i":
+            toks.append(f"i:{f[1]}:{f[2]}"); serial[cur][int(f[1])] += 1
         elif f[0] in ("V", "X"): toks.append(f"V:{f[2]}:{f[3]}")
         elif f[0] == "E": toks.append(f"E:{f[2]}")
         elif f[0] == "D": toks.append("D")
         elif f[0] == "g": toks.append("g:" + f[1])
-        elif f[0] == "T": toks.append("T:" + f[1])
-        elif f[0] == "S": toks.append("S")
-    return f"tb {case['ranks']} | " + " ".join(toks)
+        elif f[0] == "T":
+            cur = int(f[1]); toks.append("T:" + f[1])
+        elif f[0] == "S":
+            serial[0], serial[1] = serial[1], serial[0]; toks.append("S")
+        elif f[0] == "J":
+            qs = []
+            for r in range(R):
+                t = (r << 40) + serial[cur][r]; serial[cur][r] += 1
+                toks.append(f"i:{r}:{(int(f[1]) + r) & M64}")
+                qs.append([t] + mine[cur][r][-1:]); mine[cur][r].append(t)
+            toks += ["g:" + ",".join(map(str, q)) for q in qs]
+    return f"tb {R} | " + " ".join(toks)
 
 
 def evaluate_tbag(case, sr, mo):
@@ -587,6 +680,7 @@ def evaluate_tbag(case, sr, mo):
     cur = 0
     real_tags, real_dumps, real_gets = [], [], []
     seen = set()
+    mine = [[[] for _ in range(R)], [[] for _ in range(R)]]     # per harness slot (not exchanged by swap): fresh tags of the J steps
 
     def fail(what, sig, **kw):
         if sig not in seen:
@@ -613,6 +707,29 @@ def evaluate_tbag(case, sr, mo):
                      "tbag-tag-duplicate", tag=t, op=k)
             b["live"][t] = int(f[2])
             b["p2r"][pred] = t
+        elif f[0] == "J":
+            qs = []
+            for r in range(R):
+                pred = (r << 40) + b["serial"][r]
+                b["serial"][r] += 1
+                if tagpos[r] >= len(taglines[r]):
+                    fail("an insert printed no tag", "tbag-output-missing"); return of, cf
+                t = taglines[r][tagpos[r]]; tagpos[r] += 1
+                real_tags.append(t)
+                if t in b["live"]:
+                    fail(f"insert at op {k} (rank {r}) returned tag {t}, which a live item of the same bag already has", "tbag-tag-duplicate", tag=t, op=k)
+                b["live"][t] = (int(f[1]) + r) & M64
+                b["p2r"][pred] = t
+                qs.append([t] + mine[cur][r][-1:]); mine[cur][r].append(t)
+            g = cu.take("jgather")
+            if g is None:
+                fail("all_gather output missing", "tbag-output-missing"); return of, cf
+            for r in range(R):
+                want = [f"{t}:{b['live'][t]}" for t in sorted(set(qs[r])) if t in b["live"]]
+                if g[r] != want:
+                    fail(f"op {k}: rank {r} inserted an item and at once gathered its tag: all_gather({qs[r]}) returned {g[r]}, expected {want}",
+                         "tbag-allgather-after-insert", op=k, rank=r)
+                real_gets.append(("get " + " ".join(g[r])).strip())
         elif f[0] in ("V", "X"):
             t = b["p2r"].get(int(f[2]), int(f[2]))
             if t in b["live"]:
@@ -768,6 +885,23 @@ DIRECTED = [
 ]
 
 
+def directed_sizes(tier):
+    """serialized vectors and strings of special lengths: rebalance's per-destination vectors, gather_to_vector's local vector,
+    async_insert(vector), string items — exactly 254 / 255 / 256 (thorough: 65535 / 65536) elements"""
+    base = {"nodes": 1, "routing": "NONE", "buffer_kb": None, "sim_seed": 5, "policy": "uniform", "placement": "special-size"}
+    out = []
+    for n in (254, 255, 256) + ((65535, 65536) if tier != "quick" else ()):
+        big = n > 1000
+        # 4 ranks, 4n items on rank 0: rebalance ships exactly n to each other rank; afterwards every local vector has n items (gathers)
+        out.append(dict(base, mode="bag", ranks=4, ppn=4, script=f"W 0 0 {4 * n} 1;B;D;R;D;g 1;a;z", inserted=4 * n, oracle_only=big))
+        # 2 ranks: a vector insert of exactly n items to the other rank, gather of an n-item local vector
+        out.append(dict(base, mode="bag", ranks=2, ppn=2, routing="NR", buffer_kb=(0 if not big else None), script=f"W 0 1 {n} 1;B;D;g 0;a;z", inserted=n, oracle_only=big))
+        # string items of length n-1, n, n+1... as items of a bag<std::string>, rebalanced and gathered to all
+        out.append(dict(base, mode="sbag", ranks=2, ppn=2, script=f"i 0 {n} 7;i 1 {max(n - 1, 0)} 8;i 0 {n + 1} 9;i 1 3 1;i 0 {n} 11;B;R;a", inserted=5))
+        out.append(dict(base, mode="sbag", ranks=3, ppn=3, routing="NLNR", buffer_kb=1, script=f"i 2 {n} 17;i 2 {n} 18;i 2 0 1;i 1 {n} 19;B;a;R;a", inserted=4))
+    return out
+
+
 def run(tier, seed, model_ok=True):
     res = C.Result()
     res.rule = RULE
@@ -785,7 +919,7 @@ def run(tier, seed, model_ok=True):
     rng = random.Random(seed * 104729 + (14 if tier == "quick" else 1400))
     per_size = 32 if tier == "quick" else 4000
     tb_per_size = 8 if tier == "quick" else 600
-    cases = [dict(c) for c in DIRECTED]
+    cases = [dict(c) for c in DIRECTED] + directed_sizes(tier)
     for R in range(1, 9 if tier == "quick" else 13):
         placements = [("one-rank-explicit", 2 * R + 1), ("one-rank-vector", 3 * R), ("rr-one-source", 2 * R + 3), ("rr-all-sources", 3 * R + 1),
                       ("subset", 2 * R), ("mixed", 2 * R + 2), ("one-rank-explicit", max(R - 1, 0)), ("rr-one-source", max(R - 2, 1) if R > 1 else 1),
@@ -795,11 +929,13 @@ def run(tier, seed, model_ok=True):
             case = gen_bag_case(rng, R, pl)
             rng2 = random.Random(seed * 350377 + 1000 * R + k)      # separate stream: the world scenarios stay what they were
             add_sub(case, k, lambda size, rng2=rng2, pl=pl: gen_bag_case(rng2, size, (pl[0], min(pl[1], 3 * size + 1)))["script"])
+            env_knobs(case, k)
             cases.append(case)
         for k in range(tb_per_size):
             case = gen_tbag_case(rng, R)
             rng2 = random.Random(seed * 350377 + 1000 * R + 500 + k)
             add_sub(case, k, lambda size, rng2=rng2: gen_tbag_case(rng2, size)["script"])
+            env_knobs(case, k + 1)
             cases.append(case)
     runs = C.pmap(lambda c: run_real(binary, c), cases)
     tb_cases = [(c, sr) for c, sr in zip(cases, runs) if c["mode"] == "tbag"]
@@ -808,7 +944,7 @@ def run(tier, seed, model_ok=True):
 
     def ev(pair):
         c, sr = pair
-        if c["mode"] == "bag":
+        if c["mode"] in ("bag", "sbag"):
             return judge(c, sr, model_ok)
         return None
 
@@ -819,7 +955,7 @@ def run(tier, seed, model_ok=True):
         of, cf, notes = br if br is not None else judge(case, sr, model_ok, world_tb_model=next(tb_iter))
         for nt in notes:
             res.count(nt)
-        if cf and not of and case["mode"] == "bag":
+        if cf and not of and case["mode"] == "bag" and not case.get("oracle_only"):
             for k in range(6):      # search around the disagreeing case for a failing input
                 alt = dict(case, sim_seed=case["sim_seed"] + 1 + k, policy=POLICIES[k % len(POLICIES)])
                 of2 = judge(alt, run_real(binary, alt), model_ok=False)[0]
@@ -843,6 +979,11 @@ def run(tier, seed, model_ok=True):
         res.count("routing=" + case["routing"])
         res.count("buffer_kb=" + str(case["buffer_kb"]))
         res.count("items", case["inserted"])
+        res.count("env:issend_freq=%s" % case.get("issend_freq")); res.count("env:num_irecvs=%s" % case.get("num_irecvs"))
+        res.count("env:isends_wait=%s" % case.get("isends_wait"))
+        if case.get("placement_nodes"):
+            res.count("placement=cyclic")
+        res.count("insert-then-gather steps", sum(1 for o in case["script"].split(";") if o.split()[0] == "J"))
         if case.get("sub"):
             res.count("two-communicators:" + case["sub"]["split"].split(":")[0] + ":" + case["sub"]["order"])
         for op, name in (("R", "rebalances"), ("L", "local_shuffles"), ("G", "global_shuffles"), ("S", "swaps"), ("g", "gathers"), ("a", "gather_alls")):
